@@ -247,6 +247,22 @@ def run_lens(part, unit):
         for st in NAMED + LATTICE + [orth_partner(t) for t in LATTICE]:
             rays = trace(state_spec(st), Hy)
             I[st if isinstance(st, str) else tuple(st)] = np.asarray(rays.i, dtype=float).copy()
+            # the reported intensity is |P E0|^2 with E0 the stated input state expressed in the launch frame
+            # (documented basis: p = k0 x x^, s = p x k0, E0 = Ex e^{i phi_x} s + Ey e^{i phi_y} p), k0 taken from
+            # the object-surface record
+            sg = o.surface_group
+            k0 = np.stack([sg.L[0], sg.M[0], sg.N[0]], axis=1)
+            pst = state_spec(st)
+            pv = np.cross(k0, np.array([1.0, 0.0, 0.0]))
+            pv /= np.linalg.norm(pv, axis=1)[:, None]
+            sv = np.cross(pv, k0)
+            E0 = pst.Ex * np.exp(1j * pst.phase_x) * sv + pst.Ey * np.exp(1j * pst.phase_y) * pv
+            Iexp = np.sum(np.abs(np.einsum('nij,nj->ni', rays.p, E0)) ** 2, axis=1)
+            okf = np.isfinite(Iexp) & np.isfinite(rays.i)
+            if np.any(okf) and np.max(np.abs(Iexp[okf] - rays.i[okf])) > TOL:
+                j = int(np.argmax(np.abs(np.where(okf, Iexp - rays.i, 0))))
+                part.violation(PID, 'intensity-is-|P E0|^2-of-stated-state', 'Optic.trace', c, dict(det0, Hy=Hy, state=st),
+                               observed=float(rays.i[j]), expected=float(Iexp[j]), tol=TOL)
             if not coated:
                 fin = np.isfinite(rays.L) & np.isfinite(rays.x)
                 if np.any(fin):
